@@ -1005,6 +1005,12 @@ func main() {
 		}
 		for i := 0; i < *n; i++ {
 			emit(genCase(rng, *maxLen))
+			if st.hang >= 12 && *in == "" {
+				// a dozen hung cases is not load: stop generating (every further case would wait for the watchdog too);
+				// the hung cases are in the output and the check reports them
+				fmt.Fprintf(os.Stderr, "c14: %d hung steps after %d cases: generation stopped early\n", st.hang, i+1)
+				break
+			}
 		}
 	}
 	fmt.Fprintf(os.Stderr, "c14: cases=%d steps=%d ops: add=%d rm=%d begin=%d finish=%d | adds accepted=%d rejected=%d evicting=%d replacements=%d | reorgs promoting=%d interleaved=%d\n",
